@@ -109,3 +109,101 @@ Proof. exact split_nonuniform_merge1_depth. Qed.
 Theorem C03_rt_flatten1_unflatten1_depth : forall d t, at_depth d (fiber_ok wf2) t ->
   exists t', tmap_depth d flatten1 t = Some t' /\ tmap_depth d unflatten1 t' = Some t.
 Proof. exact flatten1_unflatten1_depth. Qed.
+
+(* ---- the loop nest over occupancy-partitioned tensors (Model/Nest.v, Model/NestOcc.v; Proofs/NestOccProofs.v) ----
+   The occupancy split as a transformation of the nest STATE: when the nest reaches rank r, the current fiber of every
+   tensor whose next rank is r is cut (NestOcc.bounds_split = splitNonUniform) at the chunk starts of the leader's current
+   fiber (NestOcc.chunk_starts n = the upper coordinates of splitEqual(n)), and r becomes (r1, r0).  For ANY loop order L'
+   over r1, r0 and the other ranks that is well-formed for the transformed term (other ranks anywhere between r1 and r0),
+   ANY tries: the nest contributes, at every point whose upper coordinate is the partition of its lower coordinate,
+   exactly the value of the term at the original point (r := lower coordinate), and nothing elsewhere; every original
+   point with a non-zero value is represented by exactly one such point ("no pair of elements that must meet is separated
+   or met twice").  NOT covered (hence the theorems do not carry the whole property): the correspondence of emitted HiFiber text to
+   run_then_split (that half is the kernel-evaluated execution in tools/props/c03.py), flattening, and the merge of the
+   partitioned OUTPUT tensor. *)
+Require TV.Model.Nest TV.Model.NestPart TV.Model.NestOcc TV.Proofs.NestOccProofs.
+
+(* splitNonUniform(bs) of one fiber, denotationally: for increasing boundaries, (r1, r0) is a point of the cut fiber iff
+   r1 is the partition of r0, and then it holds what the fiber holds at r0 *)
+Theorem C03_nest_bounds_split_den : forall bs l rs p r r1 r0,
+  StronglySorted Z.lt bs -> ~ In r rs ->
+  Nest.den (r1 :: r0 :: rs) (Nest.Node (NestOcc.bounds_split bs l)) p =
+  if NestOcc.occ_consistent bs r1 r0 p then Nest.den (r :: rs) (Nest.Node l) (NestPart.collapse r r0 p) else 0.
+Proof. exact NestOccProofs.den_bounds_split. Qed.
+
+(* the leader's boundaries: increasing; the first is the leader's first coordinate; every coordinate of the leader has a
+   partition; cutting the leader at its own boundaries is splitEqual(n) - the chunks of Rt.chunks, the function the
+   interpreter runs (consecutive, n elements each but the last, none empty: C03_split_equal_*_partial above) *)
+Theorem C03_nest_leader_bounds : forall n l, (0 < n)%nat -> StronglySorted Z.lt (Nest.keys l) ->
+  StronglySorted Z.lt (NestOcc.chunk_starts n l) /\
+  (forall ct l', l = ct :: l' -> exists bs', NestOcc.chunk_starts n l = fst ct :: bs') /\
+  (forall c, In c (Nest.keys l) -> NestOcc.part_of (NestOcc.chunk_starts n l) c <> None) /\
+  NestOcc.bounds_split (NestOcc.chunk_starts n l) l =
+    map (fun ch => (NestOcc.head_key ch, Nest.Node ch)) (chunks (S (length l)) n l) /\
+  NestOcc.part_of = part_of.
+Proof.
+  intros n l Hn Hs. split; [apply NestOccProofs.chunk_starts_sorted; exact Hs|].
+  split; [intros ct l' ->; eexists; apply NestOccProofs.chunk_starts_head|].
+  split; [intros c Hc; apply NestOccProofs.chunk_starts_covers; assumption|].
+  split; [apply NestOccProofs.leader_bounds_split_chunks; assumption|exact NestOccProofs.part_of_OccLaws].
+Qed.
+
+(* the followers' view: a sum of products split at ANY increasing boundaries *)
+Theorem C03_nest_bounds_sound_partial : forall r r1 r0 bs tms L',
+  StronglySorted Z.lt bs ->
+  (forall tm, In tm tms -> NestOcc.term_ok r tm) ->
+  (forall tm, In tm tms -> existsb (Nest.participates r) tm = true) ->
+  Nest.wf L' (map (NestOcc.split_term_at r r1 r0 bs) tms) ->
+  forall p, Nest.sum_at p (Nest.run L' (map (NestOcc.split_term_at r r1 r0 bs) tms)) =
+            if NestOcc.occ_consistent bs r1 r0 p then Nest.body_den tms (NestPart.collapse r r0 p) else 0.
+Proof. exact NestOccProofs.bounds_nest_sound. Qed.
+
+(* uniform_occupancy(leader.n) of one product term, leader = the tensor at position k *)
+Theorem C03_nest_occupancy_sound_partial : forall r r1 r0 n k tm L',
+  NestOcc.term_ok r tm -> NestOcc.leader_ok r k tm ->
+  Nest.wf L' [NestOcc.occ_split r r1 r0 n k tm] ->
+  forall p, Nest.sum_at p (Nest.run L' [NestOcc.occ_split r r1 r0 n k tm]) =
+            if NestOcc.occ_consistent (NestOcc.leader_bounds n k tm) r1 r0 p
+            then Nest.term_den tm (NestPart.collapse r r0 p) else 0.
+Proof. exact NestOccProofs.occ_nest_sound. Qed.
+
+(* no pair separated, none met twice *)
+Theorem C03_nest_occupancy_represented_once : forall r r1 r0 n k tm L',
+  NestOcc.term_ok r tm -> NestOcc.leader_ok r k tm -> r1 <> r0 ->
+  (forall t, In t tm -> ~ In r1 (Nest.rem t) /\ ~ In r0 (Nest.rem t)) ->
+  Nest.wf L' [NestOcc.occ_split r r1 r0 n k tm] ->
+  forall q, Nest.term_den tm q <> 0 ->
+  exists u, NestOcc.part_of (NestOcc.leader_bounds n k tm) (q r) = Some u /\
+    forall u', Nest.sum_at (Nest.upd (Nest.upd q r0 (q r)) r1 u') (Nest.run L' [NestOcc.occ_split r r1 r0 n k tm]) =
+               if Z.eqb u' u then Nest.term_den tm q else 0.
+Proof. exact NestOccProofs.occ_represented_once. Qed.
+
+(* the split at its dynamic position: outer levels Lo first, then the split of the reached state, then the inner levels;
+   the boundaries are those of the leader's fiber in the state reached at the outer coordinates of p *)
+Theorem C03_nest_occupancy_dynamic_sound_partial : forall Lo r r1 r0 n k Li tm,
+  ~ In r Lo -> NestOcc.wf_outer Lo (NestOcc.occ_state_ok r r1 r0 n k Li) [tm] ->
+  forall p, Nest.sum_at p (NestOcc.run_then_split Lo (NestOcc.occ_split r r1 r0 n k) Li [tm]) =
+            if NestOcc.occ_consistent (NestOcc.leader_bounds n k (NestOcc.reach_term Lo p tm)) r1 r0 p
+            then Nest.term_den tm (NestPart.collapse r r0 p) else 0.
+Proof. exact NestOccProofs.occ_dyn_sound. Qed.
+
+Theorem C03_nest_occupancy_dynamic_represented_once : forall Lo r r1 r0 n k Li tm,
+  ~ In r Lo -> ~ In r1 Lo -> ~ In r0 Lo -> r1 <> r0 ->
+  (forall t, In t tm -> ~ In r1 (Nest.rem t) /\ ~ In r0 (Nest.rem t)) ->
+  NestOcc.wf_outer Lo (NestOcc.occ_state_ok r r1 r0 n k Li) [tm] ->
+  forall q, Nest.term_den tm q <> 0 ->
+  exists u, NestOcc.part_of (NestOcc.leader_bounds n k (NestOcc.reach_term Lo q tm)) (q r) = Some u /\
+    forall u', Nest.sum_at (Nest.upd (Nest.upd q r0 (q r)) r1 u')
+                           (NestOcc.run_then_split Lo (NestOcc.occ_split r r1 r0 n k) Li [tm]) =
+               if Z.eqb u' u then Nest.term_den tm q else 0.
+Proof. exact NestOccProofs.occ_dyn_represented_once. Qed.
+
+(* certified validation: the static check of the rank structure + a hereditarily sorted leader give the theorem for ALL
+   tries of that rank structure *)
+Theorem C03_nest_occupancy_validator_sound_partial : forall Lo r r1 r0 n k Li tm,
+  NestOcc.occ_dyn_okb Lo r r1 r0 k Li (map Nest.rem tm) = true ->
+  (forall ld, nth_error tm k = Some ld -> NestOcc.tsortedb (Nest.cur ld) = true) ->
+  forall p, Nest.sum_at p (NestOcc.run_then_split Lo (NestOcc.occ_split r r1 r0 n k) Li [tm]) =
+            if NestOcc.occ_consistent (NestOcc.leader_bounds n k (NestOcc.reach_term Lo p tm)) r1 r0 p
+            then Nest.term_den tm (NestPart.collapse r r0 p) else 0.
+Proof. exact NestOccProofs.occ_dyn_okb_sound. Qed.
